@@ -28,7 +28,8 @@ vh::Outcome run_atomic(const vh::Case& c, bool concurrent) {
     bool faults = c.sched.fault_k != 0;
     int in_flight = 0; bool overlap = false, rmw_overlap = false;
     out.res = vrt::run(c.sched, [&] {
-        lg::atomic_guarded<Tracked, M> ag(uint64_t(0));
+        std::unique_ptr<lg::atomic_guarded<Tracked, M>> agp(ctor_from_rvalue(c) ? new lg::atomic_guarded<Tracked, M>(Tracked(uint64_t(0))) : new lg::atomic_guarded<Tracked, M>(uint64_t(0)));
+        auto& ag = *agp;
         auto run_ops = [&](const std::vector<vh::Op>& ops) {
             for (auto& o : ops) {
                 AOp op; op.kind = o.code % A_NK; op.v = 1 + o.a % 3; op.exp = o.b % 4;
